@@ -19,6 +19,7 @@ pub static PROP: Prop = Prop {
         "encoder refusals and panics are counted, not failed here (they are C11's)",
     ],
     extra: super::no_extra,
+    fuzz_runs: 400000,
 };
 
 pub fn check(c: &EncCase) -> Verdict {
@@ -78,7 +79,7 @@ fn run(ctx: &Arc<Ctx>) {
     }
     ctx.run_enumerated("fixed", "enc", fixed, None, check);
     let o = EncGenOpts { long_weight: if ctx.quick() { 1 } else { 2 }, ..Default::default() };
-    ctx.run_generated("generated", "enc", ctx.cases(40_000, 2_000_000), || g_enc_case(o), check);
+    ctx.run_generated("generated", "enc", ctx.cases(300_000, 3_000_000), || g_enc_case(o), check);
 }
 
 fn replay(_ctx: &Ctx, kind: &str, case: &Value) -> Option<Verdict> {
